@@ -57,9 +57,86 @@ func urlFieldLoad(v ssa.Value, field string) (base ssa.Value, ok bool) {
 
 // originEqEdges: edges on which Scheme (resp. Host) of two parsed URLs are equal, by direct comparison
 // of the URL values' own fields. Returns also the two URL values compared.
+// sameOriginPredicate: f takes two *url.URL and answers true only where both their Scheme and their
+// Host were compared equal (a helper like sameSchemeAndHost(a, b)).
+func sameOriginPredicate(f *ssa.Function, depth int) bool {
+	if f == nil || depth > 1 || len(f.Blocks) == 0 || len(f.Params) != 2 || f.Signature.Results().Len() != 1 || !isBoolType(f.Signature.Results().At(0).Type()) {
+		return false
+	}
+	g := FullGraph(f)
+	for _, field := range []string{"Scheme", "Host"} {
+		eq, x, y := originEqEdgesD(f, field, depth+1)
+		if x == nil || y == nil || stripConv(x) == stripConv(y) {
+			return false
+		}
+		if _, ok := stripConv(x).(*ssa.Parameter); !ok {
+			return false
+		}
+		if _, ok := stripConv(y).(*ssa.Parameter); !ok {
+			return false
+		}
+		type ans struct {
+			v  ssa.Value
+			at IPos
+		}
+		var answers []ans
+		var expand func(v ssa.Value, at IPos, d int)
+		expand = func(v ssa.Value, at IPos, d int) {
+			if phi, ok := v.(*ssa.Phi); ok && d < 4 {
+				for i, e := range phi.Edges {
+					pb := phi.Block().Preds[i]
+					expand(e, IPos{pb, len(pb.Instrs) - 1}, d+1)
+				}
+				return
+			}
+			answers = append(answers, ans{v, at})
+		}
+		for _, b := range f.Blocks {
+			if len(b.Instrs) == 0 {
+				continue
+			}
+			if ret, ok := b.Instrs[len(b.Instrs)-1].(*ssa.Return); ok {
+				expand(ret.Results[0], posOf(ret), 0)
+			}
+		}
+		for _, a := range answers {
+			if cb, isC := constBool(a.v); isC && !cb {
+				continue
+			}
+			// an answer that may be true: either it IS the comparison of this field, or it lies behind its equal-edge
+			if bo, ok := a.v.(*ssa.BinOp); ok && bo.Op == token.EQL {
+				if _, okx := urlFieldLoad(bo.X, field); okx {
+					if _, oky := urlFieldLoad(bo.Y, field); oky {
+						continue
+					}
+				}
+			}
+			if ex, _ := g.PathExists(entryPos(f), a.at, Avoid{}.withEdges(eq...)); ex {
+				return false
+			}
+		}
+	}
+	return true
+}
+
 func originEqEdges(fn *ssa.Function, field string) (eq []Edge, a, b ssa.Value) {
+	return originEqEdgesD(fn, field, 0)
+}
+
+func originEqEdgesD(fn *ssa.Function, field string, depth int) (eq []Edge, a, b ssa.Value) {
 	for _, blk := range fn.Blocks {
 		for _, in := range blk.Instrs {
+			if c, isCall := in.(*ssa.Call); isCall && depth == 0 {
+				if f, _ := calleeOf(c.Common()); f != nil && inHelm(f) && len(c.Call.Args) == 2 && sameOriginPredicate(origin(f), 0) {
+					a, b = c.Call.Args[0], c.Call.Args[1]
+					for _, e := range condEdges(c) {
+						if e.truth {
+							eq = append(eq, e.Edge)
+						}
+					}
+				}
+				continue
+			}
 			bo, ok := in.(*ssa.BinOp)
 			if !ok || (bo.Op != token.EQL && bo.Op != token.NEQ) {
 				continue
@@ -403,6 +480,7 @@ func c19Siblings(w *World, r *Report) {
 		// does the function put caller credentials into the downloader's options?
 		hasCreds := false
 		var clearing []ssa.Instruction
+		var clearingEdges []Edge
 		for _, c := range callInstrs(fn) {
 			f, _ := calleeOf(c.Common())
 			if f == nil || origin(f) != wba {
@@ -414,6 +492,23 @@ func c19Siblings(w *World, r *Report) {
 				clearing = append(clearing, c)
 			} else {
 				hasCreds = true
+				// WithBasicAuth(username, password) with both variables chosen before: on the edges where
+				// both are the empty string the call clears the credentials
+				pu, ok1 := c.Common().Args[0].(*ssa.Phi)
+				pp, ok2 := c.Common().Args[1].(*ssa.Phi)
+				if ok1 && ok2 && pu.Block() == pp.Block() {
+					for i, pred := range pu.Block().Preds {
+						su, isSU := constString(pu.Edges[i])
+						sp, isSP := constString(pp.Edges[i])
+						if isSU && isSP && su == "" && sp == "" {
+							for k, sc := range pred.Succs {
+								if sc == pu.Block() {
+									clearingEdges = append(clearingEdges, Edge{From: pred, Succ: k})
+								}
+							}
+						}
+					}
+				}
 			}
 		}
 		if !hasCreds {
@@ -428,8 +523,8 @@ func c19Siblings(w *World, r *Report) {
 		key := FuncName(fn)
 		// only paths on which the --repo lookup happened matter
 		from := posOf(fc)
-		ex1, _ := g.PathExists(from, posOf(dc), Avoid{}.withEdges(pass...).withEdges(schemeEq...).withInstrs(clearing...))
-		ex2, _ := g.PathExists(from, posOf(dc), Avoid{}.withEdges(pass...).withEdges(hostEq...).withInstrs(clearing...))
+		ex1, _ := g.PathExists(from, posOf(dc), Avoid{}.withEdges(pass...).withEdges(schemeEq...).withEdges(clearingEdges...).withInstrs(clearing...))
+		ex2, _ := g.PathExists(from, posOf(dc), Avoid{}.withEdges(pass...).withEdges(hostEq...).withEdges(clearingEdges...).withInstrs(clearing...))
 		ok := !ex1 && !ex2 && len(schemeEq) > 0 && len(hostEq) > 0
 		// operands: one URL parsed from the repo URL field, the other from the lookup's result
 		res := resultN(fc, 0)
